@@ -114,6 +114,7 @@ func init() {
 	RegisterKind("chan-accepted-range", "C08")
 	RegisterKind("chan-conflict-accepted", "C08")
 	RegisterKind("chan-conflict-code", "C08")
+	RegisterKind("chan-conflict-side-effect", "C08", "C02", "C01")
 	RegisterKind("chan-rebind-rejected", "C08", "C07")
 	RegisterKind("chan-unexpected", "C08", "C07", "C04")
 }
@@ -452,8 +453,31 @@ func (m *Model) CreatePermission(c *RawClient, peers ...*net.UDPAddr) *wire.Msg 
 }
 
 // ChannelBind performs a ChannelBind and updates/checks the model.
+// allocDigest renders the server-side state of c's allocation (hook) as a string.
+func (m *Model) allocDigest(c *RawClient) string {
+	mgrs := m.W.Srv.VerifManagers()
+	if c.Listener >= len(mgrs) {
+		return ""
+	}
+	snap, _, ok := mgrs[c.Listener].VerifSnapshot()
+	if !ok {
+		return "locked"
+	}
+	for _, s := range snap {
+		if s.Src == c.Addr.String() {
+			return fmt.Sprintf("perms=%v chans=%v", s.Permissions, s.Channels)
+		}
+	}
+
+	return "absent"
+}
+
 func (m *Model) ChannelBind(c *RawClient, num uint16, peer *net.UDPAddr) *wire.Msg {
 	a, st := m.Alloc(c)
+	digestBefore := ""
+	if m.cur == nil {
+		digestBefore = m.allocDigest(c)
+	}
 	resp, _ := m.do(c, wire.MethodChannelBind, func(b *wire.Builder) {
 		b.Add(wire.AttrChannelNumber, []byte{byte(num >> 8), byte(num), 0, 0})
 		b.AddXorAddr(wire.AttrXORPeerAddress, peer.IP, peer.Port)
@@ -541,6 +565,11 @@ func (m *Model) ChannelBind(c *RawClient, num uint16, peer *net.UDPAddr) *wire.M
 			kind = "both"
 		}
 		m.Rec.FP("chanbind/conflict-%s/%d", kind, code)
+		if code != 0 && digestBefore != "" && digestBefore != "locked" {
+			if after := m.allocDigest(c); after != digestBefore && after != "locked" {
+				m.Rec.Violate("chan-conflict-side-effect", kind, "%s: rejected ChannelBind(0x%04x,%s) (%s conflict, answered %d) changed the allocation: %s -> %s", c.Name, num, peer, kind, code, digestBefore, after)
+			}
+		}
 		if code == 0 {
 			m.Rec.Violate("chan-conflict-accepted", kind, "%s: conflicting ChannelBind(0x%04x,%s) (%s conflict) answered success", c.Name, num, peer, kind)
 		} else if code != 400 {
